@@ -255,7 +255,10 @@ func (g *curvesGen) tagList(extra ...string) []string {
 func (g *curvesGen) linMinMax(hostile bool) int {
 	r := g.rng
 	s := r.Intn(g.nSens)
-	mn := r.Range(-20, 90)
+	mn := r.Range(-40, 90)
+	if r.Chance(1, 4) {
+		mn = r.Range(-40, -1) // cold-side bounds (both may be negative)
+	}
 	mx := mn + r.Range(1, 80)
 	if r.Chance(1, 12) {
 		mn, mx = r.Range(-100000, 100000), 0
@@ -288,11 +291,20 @@ func (g *curvesGen) linSteps(mode string) int {
 		g.tag("steps-empty")
 	}
 	keys := map[int]bool{}
+	if n >= 2 && r.Chance(1, 3) {
+		keys[0] = true // a step exactly at 0 degrees
+		g.tag("steps-key-zero")
+	}
+	if n >= 2 && r.Chance(1, 3) {
+		keys[r.Range(-40, -1)] = true // cold-side steps
+	}
 	for len(keys) < n {
 		if r.Chance(1, 10) {
 			keys[r.Range(-1000, 1000)] = true
+		} else if r.Chance(1, 4) {
+			keys[r.Range(-40, 5)] = true
 		} else {
-			keys[r.Range(-30, 120)] = true
+			keys[r.Range(-40, 120)] = true
 		}
 	}
 	var ks []int
@@ -350,6 +362,11 @@ func (g *curvesGen) linSteps(mode string) int {
 		steps = append(steps, curvesStep{K: k, V: jF(v)})
 	}
 	g.tag("lin-steps")
+	for i, k := range ks {
+		if k <= 0 && i > 0 {
+			g.tag("steps-nonfirst-key<=0")
+		}
+	}
 	g.tag("steps-" + mode)
 	if n == 1 {
 		g.tag("steps-single")
@@ -493,7 +510,15 @@ func (g *curvesGen) temp(s int, hostile bool) float64 {
 	switch k := r.Intn(12); {
 	case k < 4 && len(bps) > 0:
 		b := float64(bps[r.Intn(len(bps))]) * 1000
-		return b + []float64{-1, 0, 1, -0.001, 0.001, -1000, 1000, 500}[r.Intn(8)]
+		if r.Bool() {
+			// anywhere within one degree of the breakpoint, on the 1 m-degree grid (or just off it)
+			t := b + float64(r.Range(-1000, 1000))
+			if r.Chance(1, 4) {
+				t += r.Float01() - 0.5
+			}
+			return t
+		}
+		return b + []float64{-1, 0, 1, -0.001, 0.001, -1000, 1000, 500, -500, -999, 999, -250}[r.Intn(12)]
 	case k < 8 && len(bps) > 0:
 		lo, hi := bps[0], bps[0]
 		for _, b := range bps {
@@ -734,6 +759,17 @@ func init() {
 					// between grid points and just beside the breakpoint
 					addPair(with(base, s, math.Nextafter(b, math.Inf(-1))), with(base, s, b))
 					addPair(with(base, s, b), with(base, s, math.Nextafter(b, math.Inf(1))))
+					// within the degree below and the degree above the breakpoint (1 m-degree grid)
+					lo1, lo2 := float64(rng.Range(1, 999)), float64(rng.Range(1, 999))
+					if lo1 < lo2 {
+						lo1, lo2 = lo2, lo1
+					}
+					addPair(with(base, s, b-1000), with(base, s, b-lo1))
+					addPair(with(base, s, b-lo1), with(base, s, b-lo2))
+					addPair(with(base, s, b-lo2), with(base, s, b))
+					up := float64(rng.Range(1, 999))
+					addPair(with(base, s, b), with(base, s, b+up))
+					addPair(with(base, s, b+up), with(base, s, b+1000))
 				}
 			}
 			// random pairs (grid 1..100 m° and arbitrary floats), all sensors moving up together
